@@ -26,6 +26,7 @@ func init() {
 	streams["frozen"] = &stream{gen: genFrozen, run: runSweep}
 	streams["inert"] = &stream{gen: genInert, run: runSweep}
 	streams["queries"] = &stream{gen: genQueries, run: runSweep}
+	streams["nestedro"] = &stream{gen: genNestedRO, run: runSweep}
 	streams["methods"] = &stream{gen: func(*rand.Rand, string, string) string { return "list" }, run: func(string) string { return methodList() }}
 }
 
@@ -75,6 +76,11 @@ var anyPool = []string{"N", "i7", "i1", "i2", "s78", "b1", "K n k=4 [ i1 ]", "K 
 
 func genArgs(r *rand.Rand, m reflect.Method, name string) ([]string, bool) {
 	var args []string
+	if name == "Marshal" && r.Intn(3) != 0 {
+		// well-formed rows: a lone CONDITION tuple, a stack row, an enveloped row
+		return [][]string{{"s434f4e444954494f4e", "s6b", "Oc1", "i1"}, {"s414e44", "i1", "i2"}, {"A [ s4c495354 i1 ]"},
+			{"A [ s434f4e444954494f4e s6b Oc2 i5 ]"}}[r.Intn(4)], true
+	}
 	mt := m.Type
 	for i := 1; i < mt.NumIn(); i++ { // 0 is the receiver
 		pt := mt.In(i)
@@ -380,14 +386,39 @@ func runSweep(payload string) string {
 	mode := parts[0]
 	r := buildRecv(parts[1])
 	d0 := deepDump(r.val())
+	var roChild any // nestedro: the read-only Stack nested in the (writable) receiver
+	if mode == "nestedro" {
+		for i := 0; i < r.s.Len(); i++ {
+			x, _ := r.s.Index(i)
+			if c, ok := stackage.ConvertStack(x); ok && c.IsReadOnly() {
+				roChild = c
+				break
+			}
+			if cc, ok := stackage.ConvertCondition(x); ok {
+				if c, ok := stackage.ConvertStack(cc.Expression()); ok && c.IsReadOnly() {
+					roChild = c
+					break
+				}
+			}
+		}
+	}
 	var outs []string
 	for _, call := range strings.Split(parts[2], " ; ") {
 		name := strings.SplitN(strings.TrimSpace(call), " ", 2)[0]
 		before := deepDump(r.val())
+		roBefore := ""
+		if roChild != nil {
+			roBefore = deepDump(roChild)
+		}
 		res, _ := invoke(r, call)
 		after := deepDump(r.val())
 		changed := b01(before != after)
 		switch mode {
+		case "nestedro":
+			outs = append(outs, name+" D?")
+			if roChild != nil {
+				outs[len(outs)-1] = name + " D" + b01(roBefore != deepDump(roChild))
+			}
 		case "frozen":
 			// state is what matters; Free's error too
 			tok := name + " D" + changed
@@ -546,4 +577,33 @@ func genQueries(r *rand.Rand, id string, tier string) string {
 		calls = append(calls, genCall(r, kind, qs[r.Intn(len(qs))]))
 	}
 	return "queries | " + recv + " | " + strings.Join(calls, " ; ")
+}
+
+// nestedro (C09): a read-only Stack (with nil holes) nested in a writable parent — directly or as a Condition's
+// expression next to another nested Stack; calls on the PARENT must leave the read-only instance as it was.
+// (Reveal is excluded: it rewrites nested wrappers in place by design, see DESIGN section 9.)
+func genNestedRO(r *rand.Rand, id string, tier string) string {
+	nextLeaf = 0
+	child := V{T: 'K', Form: "n", Cfg: Cfg{Kind: kinds(r), Opt: fRO}}
+	for i, n := 0, 2+r.Intn(6); i < n; i++ {
+		if r.Intn(3) == 0 {
+			child.Xs = append(child.Xs, V{T: 'N'})
+		} else {
+			nextLeaf++
+			child.Xs = append(child.Xs, V{T: 'i', I: int64(nextLeaf)})
+		}
+	}
+	parent := V{T: 'K', Form: "n", Cfg: Cfg{Kind: kinds(r)}}
+	sib := V{T: 'K', Form: "n", Cfg: Cfg{Kind: kinds(r)}, Xs: []V{{T: 'i', I: 90}, {T: 'N'}, {T: 'i', I: 91}}}
+	if r.Intn(2) == 0 {
+		parent.Xs = []V{{T: 'i', I: 80}, child, {T: 'N'}, sib}
+	} else {
+		parent.Xs = []V{sib, {T: 'C', Form: "n", Kw: "k", Op: "c1", Xs: []V{child}}, {T: 'N'}, {T: 'i', I: 81}}
+	}
+	names := []string{"Defrag", "Defrag", "Defrag", "Reverse", "Swap", "Pop", "Remove", "Reset", "Push", "Insert", "Replace", "SetFIFO", "IsEqual", "String", "Unmarshal", "Transfer"}
+	var calls []string
+	for i, n := 0, 1+r.Intn(3); i < n; i++ {
+		calls = append(calls, genCall(r, "stack", names[r.Intn(len(names))]))
+	}
+	return "nestedro | " + parent.String() + " | " + strings.Join(calls, " ; ")
 }
